@@ -312,6 +312,12 @@ func negotiateSession(ctx context.Context, location, origin jid.JID, rw io.ReadW
 		if err != nil {
 			return s, err
 		}
+		// A cancellation that arrived while no read or write was blocked has not
+		// interrupted anything (the deadline set for it is cleared again at
+		// once): do not carry on, and do not report the session established.
+		if err = ctx.Err(); err != nil {
+			return s, err
+		}
 		if rw != nil {
 			for k := range s.features {
 				delete(s.features, k)
